@@ -143,6 +143,7 @@ partial def parseVal : SExp → Option Val
   | .list [.atom "nc", .atom bits, .atom a, .atom b] => do
     pure (.atom (.npComplex (← bits.toNat?) (← parseF a) (← parseF b)))
   | .list [.atom "arr", .atom i] => i.toNat?.map fun i => .atom (.npArr i)
+  | .list [.atom "nd", .atom d, .list sh] => do pure (.atom (.ndarray (← d.toNat?) (← parseNats sh)))
   | .list [.atom "idx", r] => (parsePRInt r).map fun r => .atom (.idx r)
   | .list [.atom "flt", r] => (parsePRF r).map fun r => .atom (.flt r)
   | .list [.atom "cpx", r] => (parsePRC r).map fun r => .atom (.cpx r)
@@ -189,6 +190,7 @@ def showAtom : Atom → String
   | .npFloat bits f => s!"(nf {bits} {showF f})"
   | .npComplex bits a b => s!"(nc {bits} {showF a} {showF b})"
   | .npArr i => s!"(arr {i})"
+  | .ndarray d sh => s!"(nd {d} {showNats sh})"
   | .idx r => s!"(idx {showPR toString r})"
   | .flt r => s!"(flt {showPR showF r})"
   | .cpx r => s!"(cpx {showPR (fun (z : F × F) => showF z.1 ++ " " ++ showF z.2) r})"
@@ -253,6 +255,12 @@ def parseStrPairs (xs : List SExp) : Option (List String × List Val) := do
     | _ => none
   pure (ps.map (·.1), ps.map (·.2))
 
+def parseDim : SExp → Option DimSpec
+  | .atom "N" => some .any
+  | .atom n => n.toNat?.map .exact
+  | .list [.atom lo, hi] => do pure (.range (← lo.toNat?) (← parseOptNat hi))
+  | _ => none
+
 partial def parseTT : SExp → Option TraitType
   | .atom "Any" => some .any
   | .atom "Int" => some .int | .atom "Float" => some .float | .atom "Complex" => some .complex
@@ -281,6 +289,12 @@ partial def parseTT : SExp → Option TraitType
   | .list (.atom "PrefixList" :: ss) =>
     (ss.mapM fun (x : SExp) => match x with | SExp.atom s => some (decodeStr s) | _ => none).map .prefixList
   | .list (.atom "PrefixMap" :: ps) => (parseStrPairs ps).map fun (k, v) => .prefixMap k v
+  | .list [.atom "Array", dt, sh, .atom c] => do
+    let shape ← match sh with
+      | .atom "N" => some none
+      | .list dims => (dims.mapM parseDim).map some
+      | _ => none
+    pure (.array (← parseOptNat dt) shape (← c.toNat?))
   | .list [.atom "CoerceH", ty] => (parseTy ty).map .coerceH
   | .list [.atom "CastH", ty] => (parseTy ty).map .castH
   | .list [.atom "InstanceH", ty, an] => do pure (.instanceH (← parseTy ty) (← sexpBool an))
@@ -318,6 +332,8 @@ def adaptFn (v : Val) (cls : Ty) : Except Exc (Option Val) :=
     | _, _ => .ok none
 
 structure RawEnv where
+  asarrays : List (Val × Option Nat × Except Exc (Nat × List Nat)) := []
+  cancasts : List (Nat × Nat × Nat × Bool) := []
   casts : List (Ty × Val × Except Exc Val) := []
   rxs : List (Nat × String × Bool) := []
   selfCls : Nat := 0
@@ -334,6 +350,12 @@ def parseEnv (s : String) : Option RawEnv := do
     | .list [.atom "rx", .atom k, b] => do
       pure { env with rxs := ((← k.toNat?), "", (← sexpBool b)) :: env.rxs }
     | .list [.atom "self", .atom c] => do pure { env with selfCls := (← c.toNat?) }
+    | .list [.atom "asarray", v, dt, .atom "ok", .atom d, .list sh] => do
+      pure { env with asarrays := ((← parseVal v), (← parseOptNat dt), .ok ((← d.toNat?), (← parseNats sh))) :: env.asarrays }
+    | .list [.atom "asarray", v, dt, .atom "exc", .atom e] => do
+      pure { env with asarrays := ((← parseVal v), (← parseOptNat dt), .error (Exc.ofName e)) :: env.asarrays }
+    | .list [.atom "cancast", .atom a, .atom b, .atom c, ok] => do
+      pure { env with cancasts := ((← a.toNat?), (← b.toNat?), (← c.toNat?), (← sexpBool ok)) :: env.cancasts }
     | _ => none
 
 /-- A missing table entry is made visible (`Other`), never guessed. -/
@@ -345,6 +367,14 @@ def mkEnv (r : RawEnv) : Env :=
     fn := fnTable
     adapt := adaptFn
     selfCls := r.selfCls
+    asarray := fun v dt =>
+      match r.asarrays.find? (fun (v', dt', _) => v'.beq v && dt' == dt) with
+      | some (_, _, res) => res
+      | none => .error .other
+    canCast := fun a b c =>
+      match r.cancasts.find? (fun (a', b', c', _) => a' == a && b' == b && c' == c) with
+      | some (_, _, _, ok) => ok
+      | none => false
     rx := fun k s =>
       match r.rxs.find? (fun (k', s', _) => k' == k && s' == s) with
       | some (_, _, b) => b
